@@ -18,10 +18,16 @@ def shards(total, n):
     return out
 
 
+def fill_arg(mode, k, seed):
+    """What never-written memory looks like (shadow allocator, native modes): 0xA5 bytes, words of value 1, or zeroes -- rotated over shards and seeds."""
+    f = (k + seed) % 3
+    return ["fill=%d" % f] if f and mode in ("dbg", "rel", "off", "nostd") else []
+
+
 def hist_jobs(mode, total, ops, seed, san_props, crash_props, nshards=NCPU, first0=0, extra=(), timeout=900):
     jobs = []
-    for (first, cnt) in shards(total, nshards):
-        jobs.append(Job(mode, ["hist", "seed=%d" % seed, "first=%d" % (first0 + first), "n=%d" % cnt, "ops=%d" % ops] + list(extra),
+    for k, (first, cnt) in enumerate(shards(total, nshards)):
+        jobs.append(Job(mode, ["hist", "seed=%d" % seed, "first=%d" % (first0 + first), "n=%d" % cnt, "ops=%d" % ops] + list(extra) + fill_arg(mode, k, seed),
                         san_props=san_props, crash_props=crash_props, timeout=timeout))
     return jobs
 
@@ -235,8 +241,8 @@ def miri_conc_jobs(scen, nseeds, per, seed, props, tb_every=5, first0=0, length=
 
 def thin_jobs(mode, total, ops, seed, san_props, crash_props, nshards=4, first0=0, extra=(), timeout=900, engine="thin"):
     jobs = []
-    for (first, cnt) in shards(total, nshards):
-        jobs.append(Job(mode, [engine, "seed=%d" % seed, "first=%d" % (first0 + first), "n=%d" % cnt, "ops=%d" % ops] + list(extra),
+    for k, (first, cnt) in enumerate(shards(total, nshards)):
+        jobs.append(Job(mode, [engine, "seed=%d" % seed, "first=%d" % (first0 + first), "n=%d" % cnt, "ops=%d" % ops] + list(extra) + fill_arg(mode, k, seed),
                         san_props=san_props, crash_props=crash_props, timeout=timeout))
     return jobs
 
@@ -570,6 +576,7 @@ def shapes_jobs(mode, fam, seed, props, frac=1, nshards=4, extra=(), timeout=120
         args = ["shapes", "fam=%s" % fam, "seed=%d" % seed, "frac=%d" % frac, "shard=%d" % k, "nshards=%d" % nshards] + list(extra)
         if mode in ("asan", "memcheck"):
             args.append("shadow=0")
+        args += fill_arg(mode, k, seed)
         jobs.append(Job(mode, args, san_props=props, crash_props=props if crash is None else crash, timeout=timeout, bin="tvs"))
     return jobs
 
@@ -705,6 +712,8 @@ def simple_jobs(mode, args, props, nshards=1, timeout=1200, sharded=True):
             a += ["shard=%d" % k, "nshards=%d" % nshards]
         if mode in ("asan", "memcheck", "tsan"):
             a.append("shadow=0")
+        sd = next((int(x[5:]) for x in a if x.startswith("seed=")), 0)
+        a += fill_arg(mode, k + (1 if mode == "rel" else 0), sd)
         jobs.append(Job(mode, a, san_props=props, crash_props=props, timeout=timeout))
     return jobs
 
